@@ -48,14 +48,7 @@ def runOp (cfg : WCfg) (c : WConn) (op : String) : Option (WConn × Option WErr)
     pure (writeControl cfg c t d)
   | ["pm", t, d] => do
     let t ← t.toNat?; let d ← unhex d
-    -- frame prepared by a fake connection with the default buffer; keys continue the sequence
-    let pcfg : WCfg := { cfg with bufSize := 4096, compress := false }
-    let (pc, e) := writeMessagePlain pcfg { nkeys := c.nkeys } t d
-    match e with
-    | some e => pure ({ c with nkeys := pc.nkeys }, some e)
-    | none =>
-      let (c', e') := connWrite { c with nkeys := pc.nkeys } t pc.wire
-      pure (c', e')
+    pure (writePrepared cfg c t d)
   | _ => none
 
 def wrStep (ws : List String) : String :=
